@@ -178,7 +178,9 @@ def r5_act(ctx):
     H1, H2 = Atom("H1"), Atom("H2")
     W = worker(H1)
     D1, D2, DO, T = ds("D1", "P1"), ds("D2", "P2"), ds("DO", "T"), Atom("T")
-    a = Obj("cascade.scheduler.core.Assignment", {"worker": W, "tasks": [T], "prep": [(D1, H1), (D2, H2)], "outputs": {DO}})
+    from .common import model_elem
+    AQ = "cascade.scheduler.core.Assignment"
+    a = Obj(AQ, {"worker": W, "tasks": [T], "prep": [model_elem(repo, AQ, "prep", (D1, H1)), model_elem(repo, AQ, "prep", (D2, H2))], "outputs": {DO}})
     paths = Interp(repo).explore(fi, args={"assignment": a})
     ctx.evals(len(paths))
     for p in paths:
